@@ -189,6 +189,10 @@ type world struct {
 	ever    map[common.Hash]string
 	big     bool
 	recent  []common.Address // accounts touched so far in the block being built
+	depth      int                     // current transaction-frame depth while a block is generated
+	objSet     map[common.Address]bool // accounts whose own object a setter was called on in this block
+	strong0    map[common.Address]bool // … SetNonce/IncreaseNonce/SetCode outside every frame: certainly dirty at commit
+	looked     map[common.Address]bool // accounts only looked at (peek)
 	replay     *recAdb      // the recorded calls of the block being committed (nil for corpus scripts)
 	replayBase common.Hash
 	retained   []retained // slices returned by the accessors, kept to see whether later calls mutate them
@@ -415,7 +419,14 @@ func (w *world) mutate(adb *recAdb, touched map[common.Address]bool) {
 		w.recent = append(w.recent, a)
 	}
 	touched[a] = true
-	switch rg.Intn(14) {
+	kind := rg.Intn(14)
+	if w.objSet != nil && kind != 8 && kind != 9 { // 8/9 write the token contract's storage, not `a`
+		w.objSet[a] = true
+		if w.depth == 0 && (kind <= 2 || kind == 10 || kind == 11 || kind == 13) {
+			w.strong0[a] = true
+		}
+	}
+	switch kind {
 	case 0, 1:
 		n := uint64(rg.Intn(5))
 		adb.SetNonce(a, n)
@@ -473,6 +484,8 @@ func (w *world) mutate(adb *recAdb, touched map[common.Address]bool) {
 func (w *world) frame(adb *recAdb, touched map[common.Address]bool, depth int, budget *int) {
 	rg := w.r.rng
 	id := adb.Snapshot()
+	w.depth = depth + 1
+	defer func() { w.depth = depth }()
 	w.r.step(fmt.Sprintf("%sSnapshot #%d {", strings.Repeat("  ", depth), id))
 	n := 1 + rg.Intn(5)
 	for i := 0; i < n && *budget > 0; i++ {
@@ -908,6 +921,9 @@ func (w *world) block(p blockPlan) {
 		r.step("genesis: token contract + balance binding")
 	}
 	w.recent = nil
+	w.depth = 0
+	w.objSet, w.strong0, w.looked = map[common.Address]bool{}, map[common.Address]bool{}, map[common.Address]bool{}
+	defer func() { w.objSet, w.strong0, w.looked = nil, nil, nil }()
 	for budget := p.nmut; budget > 0; {
 		if res := hx.Guard(func() string {
 			if rg.Chance(3, 5) {
@@ -929,6 +945,7 @@ func (w *world) block(p blockPlan) {
 			a := w.addrs[rg.Intn(len(w.addrs))]
 			how := rg.Intn(6)
 			hx.Guard(func() string { ra.Peek(a, how); return "" })
+			w.looked[a] = true
 			r.stats["peeks"]++
 			r.step(fmt.Sprintf("peek(%d) %x", how, a[:]))
 		}
@@ -972,6 +989,7 @@ func (w *world) commitFrom(adb *account.AccountDB, touched map[common.Address]bo
 			r.step("!! observe " + res)
 		}
 	}
+	objs := w.objectFlags(adb)
 	root, err := adb.Commit(true)
 	if err != nil {
 		w.tainted = true
@@ -1033,6 +1051,21 @@ func (w *world) commitFrom(adb *account.AccountDB, touched map[common.Address]bo
 	}
 	w.rec.failAt = -1
 	w.rec.failPutAt = -1
+	if w.rec.backend != nil {
+		var ks []string
+		for _, pw := range w.rec.log {
+			for _, it := range pw.items {
+				ks = append(ks, it.k)
+			}
+		}
+		for _, it := range w.rec.refused {
+			ks = append(ks, it.k) // a refused batch must not have reached the real store either
+		}
+		if d := w.rec.mirrorDiff(ks); d != "" {
+			r.violate("real-store-differs-from-recorded-writes", d)
+		}
+		r.stats["real_store_keys_checked"] += len(ks)
+	}
 	if w.rec.faults > 0 && cerr == nil {
 		r.violate("write-error-swallowed", fmt.Sprintf("the store refused %d write(s) during the commit of %x but NodeDatabase.Commit returned nil", w.rec.faults, root[:4]))
 	}
@@ -1179,6 +1212,7 @@ func (w *world) commitFrom(adb *account.AccountDB, touched map[common.Address]bo
 				exp[a] = e
 			}
 		}
+		w.emitObjects(objs, diskBefore, w.replayBase, disk, root)
 		w.head, w.headExp = root, exp
 		// an older root sampled through the accessors as well
 		if len(durableBefore) > 0 && rg.Chance(1, 3) {
@@ -1266,6 +1300,17 @@ func (r *runner) scenarioState(idx int, big bool, nblocks int) {
 	}
 	setForkConfig(p002)
 	defer func() { setForkConfig(0); common.SetBlockHeight(0) }()
+	if rg.Chance(1, 4) || idx%8 == 3 {
+		// the production store: xdb.LDBDatabase (LevelDB under ./storage0) behind the recorder
+		ldb, err := xdb.NewLDBDatabase(fmt.Sprintf("c03-%s-%d-%d", r.mode, r.seed, idx), 8, 8)
+		if err == nil {
+			w.rec.backend = ldb
+			r.stats["scenarios_on_real_leveldb"]++
+			defer ldb.Close()
+		} else {
+			r.stats["leveldb_open_failed"]++
+		}
+	}
 	r.step(fmt.Sprintf("-- fork config: Proposal002Block=%d", p002))
 	defer w.checkRetained()
 	for b := 0; b < nblocks; b++ {
